@@ -15,26 +15,27 @@ pub fn k_granularity_us() -> i128 { 1000 }
 pub fn k_packet_threshold() -> i128 { 3 }
 
 // ---- loss::detect (RFC 9002 section 6.1) ---------------------------------------------------------
-// distance = largest_acked - packet_number (> 0 by the function's precondition),
-// sent / now = timestamps, thr = time threshold; all in ns.
+// distance = largest_acked - packet_number (> 0 by the function's precondition); sent / now = timestamps,
+// thr = time threshold, g = kGranularity -- all four in ONE time unit chosen by the caller (ns in the lemmas;
+// the Kani harness uses us and passes floor/ceil of the ns threshold as explained there).
 
 // the property statement, read strictly: lost iff 3 packet numbers older or sent at least `thr` earlier
 pub fn loss_rfc_lost(distance: i128, sent: i128, thr: i128, now: i128) -> bool {
     distance >= k_packet_threshold() || now >= sent + thr
 }
 // the input class of the recorded finding (DESIGN 6 item 5): Timestamp::has_elapsed adds kGranularity
-pub fn loss_known_early_class(distance: i128, sent: i128, thr: i128, now: i128) -> bool {
-    distance < k_packet_threshold() && 0 < sent + thr - now && sent + thr - now <= k_granularity_ns()
+pub fn loss_known_early_class(distance: i128, sent: i128, thr: i128, now: i128, g: i128) -> bool {
+    distance < k_packet_threshold() && 0 < sent + thr - now && sent + thr - now <= g
 }
 pub fn loss_lost_iff_rfc(lost: bool, distance: i128, sent: i128, thr: i128, now: i128) -> bool {
     lost == loss_rfc_lost(distance, sent, thr, now)
 }
-pub fn loss_lost_iff_rfc_outside_known(lost: bool, distance: i128, sent: i128, thr: i128, now: i128) -> bool {
-    loss_known_early_class(distance, sent, thr, now) || lost == loss_rfc_lost(distance, sent, thr, now)
+pub fn loss_lost_iff_rfc_outside_known(lost: bool, distance: i128, sent: i128, thr: i128, now: i128, g: i128) -> bool {
+    loss_known_early_class(distance, sent, thr, now, g) || lost == loss_rfc_lost(distance, sent, thr, now)
 }
-// the obligations that stay in force (1 ms timer-granularity slack written into them)
-pub fn loss_lost_only_if_threshold_with_slack(lost: bool, distance: i128, sent: i128, thr: i128, now: i128) -> bool {
-    !lost || distance >= k_packet_threshold() || now + k_granularity_ns() > sent + thr
+// the obligations that stay in force (timer-granularity slack written into them)
+pub fn loss_lost_only_if_threshold_with_slack(lost: bool, distance: i128, sent: i128, thr: i128, now: i128, g: i128) -> bool {
+    !lost || distance >= k_packet_threshold() || now + g > sent + thr
 }
 pub fn loss_time_threshold_implies_lost(lost: bool, distance: i128, sent: i128, thr: i128, now: i128) -> bool {
     !(now >= sent + thr) || lost
@@ -42,8 +43,8 @@ pub fn loss_time_threshold_implies_lost(lost: bool, distance: i128, sent: i128, 
 pub fn loss_packet_threshold_implies_lost(lost: bool, distance: i128, sent: i128, thr: i128, now: i128) -> bool {
     !(distance >= k_packet_threshold()) || lost
 }
-pub fn loss_lost_iff_with_granularity(lost: bool, distance: i128, sent: i128, thr: i128, now: i128) -> bool {
-    lost == (distance >= k_packet_threshold() || now + k_granularity_ns() > sent + thr)
+pub fn loss_lost_iff_with_granularity(lost: bool, distance: i128, sent: i128, thr: i128, now: i128, g: i128) -> bool {
+    lost == (distance >= k_packet_threshold() || now + g > sent + thr)
 }
 
 // ---- congestion controller: in-flight bookkeeping (C10 per call, C09 over histories) -------------
